@@ -48,6 +48,7 @@ type childOpts struct {
 	Dir     string
 	Stdin   string
 	RaceLog string // if set, GORACE is pointed at this log prefix (halt_on_error=0)
+	TmpDir  string // TMPDIR of the child (default: the run's scratch directory)
 }
 
 // runChild runs a command with stdout/stderr redirected to files (so that a
@@ -71,7 +72,11 @@ func runChild(r *vf.Run, bin string, args []string, o childOpts) childResult {
 			defer f.Close()
 		}
 	}
-	cmd.Env = append(os.Environ(), "TMPDIR="+r.Scratch)
+	tmpDir := r.Scratch
+	if o.TmpDir != "" {
+		tmpDir = o.TmpDir
+	}
+	cmd.Env = append(os.Environ(), "TMPDIR="+tmpDir)
 	if o.RaceLog != "" {
 		cmd.Env = append(cmd.Env, "GORACE=halt_on_error=0 log_path="+o.RaceLog)
 	}
